@@ -167,6 +167,9 @@ func (cfg *schedCfg) explore(prefix []int, from int, bound int, r *core.Rec, c *
 	x := cfg.run(prefix)
 	cfg.check(x, r, c)
 	*count++
+	if *count&1023 == 0 {
+		r.Heartbeat()
+	}
 	start := len(prefix)
 	if start < from {
 		start = from
@@ -252,7 +255,7 @@ func init() {
 		thorough := []sc{
 			{"encode", 5, 1, 48, 3},      // 3 x 5   (18!/(6!)^3 = 17.2 M interleavings)
 			{"encode", 3, 1, 64, 4},      // 4 x 3   (16!/(4!)^4 = 63.1 M)
-			{"reconstruct", 3, 1, 50, 4}, // 4 x 3 with a short last chunk (63.1 M)
+			
 			{"encode", 2, 2, 34, 7},      // g > number of 16-byte units
 		}
 		list := quick
